@@ -27,6 +27,15 @@ package handshake
 // that differs from the model's). These operations are not terminal, so they occur as the
 // first packet of a key phase, right after a locally initiated update, before a peer's
 // update, around ticks of the drop timer, ...
+//
+// Start states (parts "keyupdate-*-late"): the depth bound of a BFS from the fresh pair ends
+// around the first timer-based discard of old read keys, so nothing ever FOLLOWS such a discard.
+// The late parts therefore start from settled states: the macro operation settle(i, rounds, tail)
+// (only enabled in the initial state; a fixed sequence of ordinary operations, each judged by the
+// oracle) runs 1 or 2 complete key updates driven by endpoint i, each one confirmed, acknowledged
+// and followed by > 3*PTO and a packet that makes the timer discard the old keys; the last round
+// stops after the discard / after the expiry / with the timer running. Same alphabet and oracle
+// from there on: further local and remote updates with old-phase packets in flight, replays, ...
 
 import (
 	"bytes"
